@@ -376,4 +376,13 @@ end
 
 end Importable
 
+/-- a package named by a list of files has the synthetic path `command-line-arguments`: the rule is left to the compiler (D42) -/
+theorem importable_synthetic (path : String) : importableFromTool path syntheticPath = true := by
+  simp [importableFromTool]
+
+/-- for every other importer the function is the internal-package rule on path elements -/
+theorem importable_real (path frm : String) (h : frm ≠ syntheticPath) :
+    importableFromTool path frm = importableFromC path.toList frm.toList := by
+  simp [importableFromTool, importableFrom, h]
+
 end WireP.C01
